@@ -28,7 +28,9 @@ THEOREMS = {
     "C01": _INERT + [("XV.Helpers.kw_defaults_length", _HELP), ("XV.Helpers.defaults_le_positional", _HELP), ("XV.Helpers.args_order", _HELP),
                      ("XV.Src.kept_no_trivia", _TS), ("XV.Src.kept_sublist", _TS)],
     "C07": [("XV.Macro.loop_partition", _PM), ("XV.Macro.param_is_concat", _PM), ("XV.Macro.concat_is_source_slice", _PM)],
-    "C08": [("XV.Tz.tokenize_structure", "XonshVerif.Properties.C08"), ("XV.Tz.prefix_depth_defined", "XonshVerif.Properties.C08"), ("XV.Tz.tokenizeLines_struct", "XonshVerif.Proofs.TokStructure"),
+    "C08": [("XV.Tz.tokens_are_source_slices", "XonshVerif.Properties.C08"), ("XV.Tz.splitLines_nonLastEndNL", "XonshVerif.Properties.C08"), ("XV.Tz.tokenizeLines_cov", "XonshVerif.Proofs.TokCover"),
+            ("XV.Tz.scanLine_cov", "XonshVerif.Proofs.TokCover"), ("XV.Tz.nextStatement_cov", "XonshVerif.Proofs.TokCover"),
+            ("XV.Tz.tokenize_structure", "XonshVerif.Properties.C08"), ("XV.Tz.prefix_depth_defined", "XonshVerif.Properties.C08"), ("XV.Tz.tokenizeLines_struct", "XonshVerif.Proofs.TokStructure"),
             ("XV.Tz.scanLine_struct", "XonshVerif.Proofs.TokStructure"),
             ("XV.Tz.string_tokens_are_source_slices", "XonshVerif.Properties.C08"), ("XV.Tz.srcText_is_slice_of_source", "XonshVerif.Properties.C08"), ("XV.Tz.tokenizeLines_strings", "XonshVerif.Proofs.StringTiling"),
             ("XV.Tz.pseudo_token_is_source_slice", "XonshVerif.Proofs.Tiling"), ("XV.Tz.handleEndProgs_adv", _PT), ("XV.Tz.nextPseudo_adv", _PT), ("XV.Tz.scanLine_no_loopFuel", _PT)],
